@@ -38,6 +38,8 @@ def compile_programs(ck, d, thorough):
         b = os.path.join(sd, 'p.bin')
         if rc == 0 and os.path.exists(b):
             out.append((name, b, b'5' if name == 'fib.x' else b'A\xfe' if name == 'echo' else b''))
+        else:
+            ck.broken.append('xcmp does not compile %s (rc %d): %s -- nothing would be judged on it' % (name, rc, (o + e)[-200:]))
     return out
 
 
@@ -181,7 +183,9 @@ def extra_programs(ck, d):
 
 
 def main():
+    global run3
     ck = Check('C13')
+    run3 = tbcommon.retrying(ck)          # a timed-out run is re-run once before it counts
     ck.cov['trusted_base'] = ['Coq 8.16.1 kernel + VM', 'TbModel.v hand model of hextb.cpp run()/handleSyscall()/load(), tied by this run',
                               'generated RTL semantics (tools/vl2coq.py) and the clocking/first-eval semantics of RtlSem.v', 'Verilator 5.006 (the Verilated model is the implementation under test)',
                               'harness/tb_harness.cpp (plants state through --public-flat-rw, calls hextb.cpp\'s own load/run)']
@@ -300,6 +304,9 @@ def main():
     # ---- tie for the model: extracted TbModel.run (hextb.cpp's loop over the generated RTL) vs hextb.cpp's own run() in the harness
     corr = model_correspondence(ck, d, tbh, [p for p in progs if p[0] in ('exit7', 'echo', 'sum')] + extras)
     ck.cov['model_correspondence'] = corr
+    floor = 1200 if not ck.thorough() else 20000
+    if not ck.replay_arg and (len(progs) < 5 or ck.cov['evaluations'] < floor):
+        ck.broken.append('only %d programs / %d runs were judged (expected at least 5 / %d): the check would pass without having looked' % (len(progs), ck.cov['evaluations'], floor))
     ck.cov['distinct_nontrivial'] = len(distinct)
     ck.cov['rule'] = 'power-on states = Verilator seeds (real executable) + planted register states at/just before every SVC and store byte of the image + memory fills that make every non-image byte an SVC/store; x toolchain binaries; distinct by (program, state)'
     ck.cov['input_distribution'] = dist
